@@ -27,12 +27,16 @@ ASSUME = {
         "the harness converts elements to integers itself (casts, mpz import/export of ruint limbs through RecInt::ruint_to_mpz)",
     ],
     "C04": [
-        "std::fmod is exact; conversions float/double <-> integer are the IEEE-754 ones",
-        "Integer % word, Integer::mod and Integer -> word casts are the gmp++ operations verified in C01/C02",
-        "only Modular<machine word>::init from machine-integer sources has a Lean model and theorems; every other init overload, convert and the constants "
-        "are tied to the exact specification by correspondence",
+        "std::fmod is exact; static_cast<int64_t>(y) and Integer(double) truncate a finite floating value toward zero exactly; conversions of an "
+        "integer of magnitude <= 2^mantissa to float/double are exact (IEEE-754 hypotheses of the exact-integer model)",
+        "Integer::mod (Euclidean remainder), Integer % word (remainder of the truncating division) and Integer -> word casts are the gmp++ operations "
+        "verified in C01/C02; RecInt <-> Integer conversions by their contracts (C06)",
+        "Modular<Log16>: theorems for any valid generator chain (L16.Valid); Montgomery<int32_t> / Montgomery<ruint<K>> init/convert theorems are C07's "
+        "(mg32_init_convert_id, mgR_init_*): here they are tied by correspondence; GFqDom (exponent 1) by correspondence",
+        "init of ModularExtended from machine integers narrower than the element type goes through the FMA reduce(): correspondence only",
         "outside the property: even modulus for Montgomery<int32_t>; float sources beyond 2^32 for Montgomery<int32_t>'s template init (header: the source must fit an Element); "
-        "convert into a type that cannot hold the lift; GFqDom with exponent > 1",
+        "convert into a type that cannot hold the lift; non-integer floating sources for every ring but the machine-word Modular rings (which truncate: modelled); "
+        "GFqDom with exponent > 1; ZRing<T> (characteristic 0, not anchored)",
     ],
 }
 
@@ -43,7 +47,9 @@ RULE = {
            "4 registers, sources may coincide, the destination never aliases a source); representation-level lines for the log-table ring; "
            "non-trivial = some operand outside {0,1}",
     "C04": "per ring x source type: limits of the source type, +-2^k+-1 (k up to 999 for double/Integer), values around m, 2m, m^2, negatives, random of "
-           "random magnitude (floating sources: exactly representable integers only); convert on the operand grid; constants per modulus",
+           "random magnitude (floating sources: exactly representable integers, plus half-integers k+1/2); convert to every target type on the operand grid; "
+           "constants per modulus; the ring assigned onto a default-constructed ring and onto rings of three other moduli, then zero/one/mOne, init(-1), "
+           "isMOne, maxElement, minElement, cardinality of the assigned object",
 }
 
 
